@@ -75,5 +75,12 @@ def r03_5(ctx):
 r03_5.rule_id = "R03.5"
 
 
-RULES = [r03_1, r03_2, r03_3, r03_4, r03_5]
-FLOORS = {"R03.1r": 8, "R03.1": 7, "R03.2": 3, "R03.3": 10, "R03.4": 14, "R03.5": 8}
+def r03_6(ctx):
+    n = smr.rule_dhp_retired_empty(ctx, "R03.6", "Otherwise retired objects of a detached thread are never disposed (C03).")
+    if n < 1:
+        ctx.broken("retired_array::empty() return expression not found")
+r03_6.rule_id = "R03.6"
+
+
+RULES = [r03_1, r03_2, r03_3, r03_4, r03_5, r03_6]
+FLOORS = {"R03.1r": 8, "R03.1": 7, "R03.2": 3, "R03.3": 10, "R03.4": 14, "R03.5": 8, "R03.6": 1}
